@@ -10,7 +10,33 @@ _FP_FILE = {"write_at": "c14_write_at", "get_size": "c14_get_size",
 _FP_WRITER = dict(_FP_FILE, write_options="c14_write_options", do_block="c14_do_block",
                   destroy=["c14_comp_destroy", "c14_outfile_destroy"])
 
+_FP_BP = dict(_FP_FILE, write_data_block="c13_write_data_block", do_block="c14_do_block",
+              destroy="c14_obj_destroy", submit="c13_pool_submit", dequeue="c13_pool_dequeue",
+              get_status="c13_pool_get_status", get_worker_count="c13_pool_get_worker_count",
+              set_worker_ptr="c13_pool_set_worker_ptr")
+
 HARNESSES = [
+    dict(name="bp_fragment", file="bp_fragment.c",
+         label="bounded(block index <= 11, payload <= 16)", fp=_FP_BP, unwind=6, timeout=900,
+         cases=[dict(id="avail0", defines={"INODE_AVAIL": 0}, tier="quick"),
+                dict(id="avail16", defines={"INODE_AVAIL": 16}, tier="quick")]),
+    dict(name="bp_block", file="bp_block.c",
+         label="bounded(block index <= 11, in-flight copies <= 2)", fp=_FP_BP, unwind=6, timeout=900,
+         # "flags & ~BLK_FLAG_INTERNAL": int mask converted to unsigned, defined
+         # behaviour (modular) that --conversion-check flags
+         nochecks=["--conversion-check"],
+         cases=[dict(id="avail0", defines={"INODE_AVAIL": 0}, tier="quick"),
+                dict(id="avail16", defines={"INODE_AVAIL": 16}, tier="quick")]),
+    dict(name="bp_set_block_size", file="bp_set_block_size.c",
+         label="bounded(block index <= 11)", fp=_FP_BP, unwind=6, timeout=600,
+         cases=[dict(id="avail0", defines={"INODE_AVAIL": 0}, tier="quick"),
+                dict(id="avail16", defines={"INODE_AVAIL": 16}, tier="quick")]),
+    dict(name="export_table", file="export_table.c", label="proved",
+         fp=dict(_FP_FILE, destroy="c14_obj_destroy"),
+         timeout=600, cases=[dict(id="all", tier="quick")]),
+    dict(name="finish", file="finish.c", label="proved",
+         fp=dict(_FP_FILE, get_block_count="c14_get_block_count"),
+         timeout=600, cases=[dict(id="all", tier="quick")]),
     dict(name="writer_init", file="writer_init.c", label="proved",
          fp={"write_at": "c14_write_at", "read_at": "rd_read_at",
              "write_options": "c14_write_options",
